@@ -167,6 +167,9 @@ class Gen:
 
     def lam(self, ptypes, rt, d):
         ps = [self.pick(['v', 'w', 'u', 'p', 'q']) + str(i) for i, _ in enumerate(ptypes)]
+        if self.env and self.r.random() < 0.25:
+            # a parameter that shadows an outer / host name of the program
+            ps[0] = self.pick(sorted(self.env))
         saved = dict(self.env)
         for p, t in zip(ps, ptypes):
             self.env[p] = t
